@@ -1020,7 +1020,14 @@ class HeapExec(NumExec):
                     out.add(n.target.id)
                 if isinstance(n, ast.Call) and isinstance(n.func, ast.Attribute) and n.func.attr in ("append", "clear", "extend", "pop") and isinstance(n.func.value, ast.Name):
                     out.add(n.func.value.id)
+                # callees that mutate a list argument in place (registered by the driver with the contract that models them)
+                if isinstance(n, ast.Call) and ast.unparse(n.func) in s.mutating_calls:
+                    for k in s.mutating_calls[ast.unparse(n.func)]:
+                        if k < len(n.args) and isinstance(n.args[k], ast.Name):
+                            out.add(n.args[k].id)
         return out
+
+    mutating_calls = {}
 
     def written_fields(s, body, _seen=None):
         """heap field keys possibly written by a loop body: direct stores/list mutations + modifies of called contracts"""
